@@ -43,8 +43,14 @@ type And struct {
 func (f *And) Call(s *slip.Scope, args slip.List, depth int) (result slip.Object) {
 	result = slip.True
 	d2 := depth + 1
+	last := len(args) - 1
 	for i := range args {
-		if result = slip.EvalArg(s, args, i, d2); result == nil || slip.IsExit(result) {
+		result = slip.EvalArg(s, args, i, d2)
+		if i < last {
+			// Only the last form passes on multiple values.
+			result = slip.PrimaryValue(result)
+		}
+		if result == nil || slip.IsExit(result) {
 			break
 		}
 	}
